@@ -7,7 +7,7 @@ PREFIXES = ("C10_",)
 ASSUME = ["gates sit at the vpoint hooks (build tag verif); a step of the model = release of the goroutine(s) it names and their arrival at the next gate",
           "select races the driver cannot force (timer vs abort, data vs closed channel) are left out of replayed behaviours (Replayable = TRUE); they are in the exhaustive model",
           "producers: Triangle (simple) and Erroring; Abaco/Lancero/Roach producer chains are not replayed here",
-          "a hang is a call that has not returned 700 ms after every gate was opened, reported with its blocking frame",
+          "a hang is a call that has not returned 2 s after every gate was opened, reported with its blocking frame",
           "Stop on a source that is still Starting panics by design below the RPC layer; the RPC layer never lets it happen (checked in the model with RPCLayer = TRUE/FALSE)"]
 
 
